@@ -89,15 +89,38 @@ func c08Run(t *testing.T, c c08Case, ch *seqx.Chooser) (kind, what string, trace
 			sent := 0 // bytes of the stream handed to the tool so far (on all connections)
 			connected := true
 			dials := 0
+			// the master's answer to a reconnect PSYNC: alone, or in one write with the next 7 bytes
+			// of the stream (the tool must not lose what it read beyond the status line)
+			piggyback := false
+			var sentAtPsync []int
+			m.PsyncExtra = func(p msource.Psync) []byte {
+				sentAtPsync = append(sentAtPsync, sent)
+				if !piggyback {
+					return nil
+				}
+				k := 7
+				if sent+k > len(c08Stream) {
+					k = len(c08Stream) - sent
+				}
+				b := c08Stream[sent : sent+k]
+				sent += k
+				return b
+			}
 			hook.SetDialHook(func(network, addr string) (net.Conn, error, bool) {
 				dials++
-				if ch.Choose(2) == 1 {
+				d := ch.Choose(3)
+				if d == 1 {
 					trace = append(trace, "dial-refused")
 					return nil, errors.New("connection refused"), true
 				}
+				piggyback = d == 2
 				cc, sc := memconn.Pair(fmt.Sprintf("source%d", dials))
 				go m.Serve(sc)
-				trace = append(trace, "dial-ok")
+				if piggyback {
+					trace = append(trace, "dial-ok(+CONTINUE and 7 stream bytes in one write)")
+				} else {
+					trace = append(trace, "dial-ok")
+				}
 				return cc, nil, true
 			})
 			c0, s0 := memconn.Pair("source0")
@@ -136,10 +159,14 @@ func c08Run(t *testing.T, c c08Case, ch *seqx.Chooser) (kind, what string, trace
 				}
 				seenAcks = len(acks)
 				ps := m.Psyncs()
-				for _, p := range ps[seenPsyncs:] {
-					want := c.Start + int64(sent) + 1
+				for i, p := range ps[seenPsyncs:] {
+					sentThen := sent
+					if seenPsyncs+i < len(sentAtPsync) {
+						sentThen = sentAtPsync[seenPsyncs+i]
+					}
+					want := c.Start + int64(sentThen) + 1
 					if p.Offset != want || p.RunID != "run-1" {
-						bad("psync-offset", fmt.Sprintf("reconnect sends PSYNC %s %d, expected PSYNC run-1 %d (start %d + %d bytes received + 1)", p.RunID, p.Offset, want, c.Start, sent))
+						bad("psync-offset", fmt.Sprintf("reconnect sends PSYNC %s %d, expected PSYNC run-1 %d (start %d + %d bytes received + 1)", p.RunID, p.Offset, want, c.Start, sentThen))
 					}
 					connected = true
 				}
